@@ -45,6 +45,39 @@ CHECK_ORDER = ["C19", "C10", "C05", "C12", "C07", "C17", "C16", "C13", "C20", "C
                "C01", "C06", "C04", "C15", "C03"]
 
 
+# which checks exercise which files (cheapest first); an undetected mutant costs about a minute
+BROKER = ["C05", "C12", "C07", "C13", "C14", "C02", "C01", "C15"]
+FILE_CHECKS = {
+    "connections/redis/": BROKER + ["C03"],
+    "connections/rabbitmq/": BROKER + ["C09"],
+    "connections/in_memory/": BROKER + ["C10"],
+    "connections/abc.py": ["C17", "C13", "C02", "C01"],
+    "_runner.py": ["C10", "C17", "C13", "C02", "C09", "C03"],
+    "_processor.py": ["C10", "C17", "C16", "C13", "C08", "C18", "C02", "C04"],
+    "worker.py": ["C10", "C17", "C20", "C11", "C03"],
+    "message.py": ["C16", "C13", "C02", "C04"],
+    "job.py": ["C19", "C07", "C05", "C12", "C13", "C06"],
+    "router.py": ["C08", "C11"],
+    "converter.py": ["C08", "C18", "C07"],
+    "queue.py": ["C16", "C07"],
+    "health_check_server.py": ["C20"],
+    "data/": ["C19", "C05", "C12", "C07", "C13", "C06", "C04"],
+    "_utils/": ["C07", "C13", "C08", "C18"],
+    "middlewares/": ["C17", "C13", "C02"],
+    "dependencies/": ["C16", "C13", "C08", "C18", "C02"],
+    "retry_policy.py": ["C19", "C04"],
+    "serializer.py": ["C07", "C08"],
+    "_asyncify.py": ["C08", "C17"],
+}
+
+
+def checks_for(rel):
+    for k, v in FILE_CHECKS.items():
+        if rel.startswith(k):
+            return v
+    return CHECK_ORDER
+
+
 def _skip_line(line: str) -> bool:
     return "pragma: no cover" in line or "logger." in line or line.strip().startswith(("raise ", "warn(", '"', "'"))
 
@@ -221,7 +254,7 @@ def cmd_tests(args):
                        f"-p no:cacheprovider --timeout=60 --deselect tests/test_hypothesis.py::test_job_creation "
                        f"--ignore tests/integration 2>&1 | tail -1'", timeout=500, env=env)
                 last = (r.stdout or "").strip().splitlines()[-1:] or [""]
-                m["tests"] = "pass" if re.search(r"\b194 passed\b", last[0]) and "failed" not in last[0] else "fail"
+                m["tests"] = "pass" if re.search(r"\b194 passed\b", last[0]) and not re.search(r"\b\d+ (failed|error)", last[0]) else "fail"
                 m["tests_tail"] = last[0][:120]
             restore(t, m)
         finally:
@@ -243,6 +276,10 @@ def cmd_checks(args):
     todo = [m for m in ms if m.get("tests") == "pass" and "checks" not in m]
     if args.only:
         todo = [m for m in todo if m["id"] in set(args.only)]
+    else:
+        surv = [m for m in ms if m.get("tests") == "pass"]
+        pick = {m["id"] for i, m in enumerate(surv) if i % args.stride == args.offset}
+        todo = [m for m in todo if m["id"] in pick]
     t = make_tree("c0")
     out = os.path.join(MUT, "out")
     for n, m in enumerate(todo):
@@ -251,7 +288,7 @@ def cmd_checks(args):
         env = dict(os.environ, REPID_TREE=t, MC_OUT=out, VERIF_SEED="0")
         res = {}
         detected = None
-        for c in CHECK_ORDER:
+        for c in (CHECK_ORDER if args.all_checks else checks_for(m["file"])):
             r = sh(f"cd /verif && taskset -c {args.cpus} timeout 900 ./check {c} quick 2>&1 | tail -40", timeout=1000, env=env)
             o = r.stdout or ""
             last = o.strip().splitlines()[-1] if o.strip() else ""
@@ -305,6 +342,9 @@ if __name__ == "__main__":
     p.add_argument("--cpus", default="0-15")
     p.add_argument("--only", type=int, nargs="*")
     p.add_argument("--keep-going", action="store_true")
+    p.add_argument("--all-checks", action="store_true")
+    p.add_argument("--stride", type=int, default=1)
+    p.add_argument("--offset", type=int, default=0)
     sub.add_parser("report")
     a = ap.parse_args()
     globals()["cmd_" + a.cmd](a)
